@@ -1,3 +1,4 @@
+import PynetVerif.Gen.Dimse
 import PynetVerif.Model.Dimse
 import PynetVerif.Lemmas.Dimse
 /-!
@@ -44,6 +45,29 @@ theorem C15_size (ctx : Nat) (cmd : Bytes) (m : Msg) (max : Nat)
   · obtain ⟨_, _, h⟩ := mem_mark _ _ _ _ _ hp
     have := mem_dataChunks_le m max h7 _ h
     omega
+
+/-- **The maximum that counts is the peer's**: whatever this side advertised as its own maximum
+(including 0, "unlimited"), every P-DATA `send_msg` hands to the provider fits the maximum length the
+peer advertised, in both roles. -/
+theorem C15_send_respects_peer (isRequestor : Bool) (reqMax accMax ctx : Nat) (cmd : Bytes) (m : Msg)
+    (h7 : 7 ≤ (if isRequestor then accMax else reqMax)) (hc : cmd ≠ []) (hpo : m.pathOk) :
+    ∀ p ∈ (sendMsg isRequestor reqMax accMax ctx cmd m).1,
+      4 + 1 + 1 + p.payload.length ≤ (if isRequestor then accMax else reqMax) :=
+  C15_size ctx cmd m _ h7 hc hpo
+
+/-- the source still takes the peer's maximum: `maximum_pdu_size` returns the acceptor's
+`maximum_length` for a requestor and the requestor's for an acceptor, and `send_msg` passes exactly
+that to `encode_msg` (syntax facts regenerated from dimse.py on every run) -/
+theorem C15_code_uses_peer_max :
+    Gen.Dimse.maxSrcAsRequestor = "acceptor" ∧ Gen.Dimse.maxSrcAsAcceptor = "requestor" ∧
+    Gen.Dimse.sendPassesMax = true := by decide
+
+/-- why "the smaller of the two maxima" is not a safe simplification: 0 means unlimited, so with
+an unlimited local maximum the minimum is 0 and a 100-byte data set goes out in one PDV although the
+peer accepts at most 16 bytes -/
+theorem C15_min_of_both_neg :
+    ∃ p ∈ (encodeMsgFull 1 [1] ⟨true, some (List.replicate 100 0), none⟩ (min 16 0)).1,
+      ¬ 4 + 1 + 1 + p.payload.length ≤ 16 := by decide
 
 /-- Control bytes are `01* 03` followed, iff data-set fragments are sent, by
 `00* 02`; every PDV carries the requested context id. -/
